@@ -29,6 +29,7 @@ import Driver.OrdVecChk
 import Driver.AchainChk
 import Vata.Proofs.LtsSim
 import Vata.Properties.C01
+import Vata.TrimCoded
 /-!
 # vdriver – the model side of the correspondence check
 
@@ -273,8 +274,16 @@ def checkTrim (args res : List String) : Except String (Findings × String) := d
   if f.isEmpty then
     if !taEq R1 (removeUnreachable A) then f := f ++ [s!"mismatch unreach-model model={showTA (removeUnreachable A)}"]
     if !taEq R2 (removeUseless A) then f := f ++ [s!"mismatch useless-model model={showTA (removeUseless A)}"]
+    -- the work-lists AS CODED (`Vata/TrimCoded.lean`: `reachableStates` / `reachableTransitions` / the global `remaining` counter and
+    -- its shortcut branch, the top-down work-list with the "nothing removed" shortcut; `C03_coded_*`)
+    let R1c := TrimCoded.unreachCoded A
+    let R2c := TrimCoded.uselessCoded A
+    if !taEq R1 R1c then f := f ++ [s!"mismatch unreach-coded-model model={showTA R1c}"]
+    if !taEq R2 R2c then f := f ++ [s!"mismatch useless-coded-model model={showTA R2c}"]
+    if e != (bchar (TrimCoded.isLangEmptyCoded A)).toString then f := f ++ ["mismatch IsLangEmpty-coded-model"]
   if !nodupRules R1.rules || !nodupRules R2.rules then f := f ++ ["violation duplicate rule in iteration of the result"]
-  pure (f, s!"empty={bchar ee} dropped1={A.rules.length - R1.rules.length} dropped2={A.rules.length - R2.rules.length}")
+  let sc := if (TrimCoded.finalSt TrimCoded.decOne A).remaining == 0 then 1 else 0
+  pure (f, s!"empty={bchar ee} dropped1={A.rules.length - R1.rules.length} dropped2={A.rules.length - R2.rules.length} remaining0={sc}")
 
 def checkCand (args res : List String) : Except String (Findings × String) := do
   let A ← getE (args[0]? >>= parseTA?) "bad A"
